@@ -6,7 +6,7 @@ LEVEL = 'exploration'
 CACHE_FULL = 0x607
 ST_RESP, ST_CONF, ST_ERR = 3, 4, 5
 
-ACTIONS = ['add', 'run', 'reply', 'reply_last', 'dup', 'unknown_id', 'stale_gen', 'bad_mac', 'err_status', 'err_pdu', 'push_conf', 'partial', 'close', 'refuse', 'wouldblock', 'clock', 'grow', 'add_unsendable']
+ACTIONS = ['add', 'run', 'reply', 'reply_last', 'dup', 'unknown_id', 'stale_gen', 'bad_mac', 'err_status', 'err_pdu', 'push_conf', 'partial', 'close', 'refuse', 'wouldblock', 'clock', 'grow', 'add_unsendable', 'other_hash']
 
 
 class Req:
@@ -216,8 +216,20 @@ class Monitor:
                 if not q.sent:
                     q.early_reply = True
                 self.trace[-1] = '%s(%s%s)' % (a, q.tag, '' if q.sent else ' EARLY')
+        elif a == 'other_hash':
+            # an authentic status-0 reply with the id of an outstanding request whose chains start at ANOTHER hash (replies mixed up at the server): the
+            # request completes, but no signature may be derived from it
+            cands = [q for q in self.outstanding() if q.sent and not q.valid_reply]
+            if cands:
+                q = rng.choice(cands)
+                other = gen.gen_signature(rng, first_corr=0, with_cal=False, rfc=False, doc_imprint=R.H(1, b'other/' + q.tag.encode()), time=1500000000, nchains=1)
+                if self.push(S.aggr_response(dict(req_id=q.id), other, self.key)):
+                    q.valid_reply = True
+                    q.other_hash = True
+                    self.r.count('replies_for_another_hash')
+                    self.trace[-1] = 'other_hash(%s)' % q.tag
         elif a == 'dup':
-            cands = [q for q in self.reqs.values() if q.valid_reply]
+            cands = [q for q in self.reqs.values() if q.valid_reply and not getattr(q, 'other_hash', False)]
             if cands:
                 q = rng.choice(cands)
                 self.push(S.aggr_response(dict(req_id=q.id), self.sig_for(q), self.key))
@@ -387,7 +399,12 @@ class Monitor:
                     self.viol('response-without-valid-reply', 'request %s completed with a response although no authentic status-0 reply with its id %#x was delivered' % (tag, rq.id))
                 if q.get('respid') != str(rq.id):
                     self.viol('response-of-other-request', 'request %s (id %d) completed with response id %s' % (tag, rq.id, q.get('respid')))
-                if q.get('sigrc') != '0' or q.get('sigdoc') != rq.hash.hex():
+                if getattr(rq, 'other_hash', False):
+                    if q.get('sigrc') == '0':
+                        self.viol('signature-derived-from-reply-for-other-hash', 'request %s (hash %s...) was answered with chains for another hash; KSI_AsyncHandle_getSignature hands out a signature (document %s...)' % (tag, rq.hash.hex()[:16], (q.get('sigdoc') or '')[:16]))
+                    else:
+                        self.r.count('reply_for_another_hash_gave_no_signature')
+                elif q.get('sigrc') != '0' or q.get('sigdoc') != rq.hash.hex():
                     self.viol('signature-for-other-hash', 'request %s: signature rc=%s doc=%s expected %s' % (tag, q.get('sigrc'), q.get('sigdoc'), rq.hash.hex()))
             elif st == ST_ERR:
                 self.r.count('returned_with_error_%s' % q.get('herr'))
@@ -646,6 +663,7 @@ def run(ctx):
         ctx.require(c.get('schedules', 0) >= 1000 and c.get('returned_with_response', 0) >= 500, 'schedules run and responses observed')
         ctx.require(c.get('conf_accounting_scenarios', 0) >= 30, 'configuration accounting scenarios')
         ctx.require(c.get('submissions_refused_for_their_own_reason', 0) >= 100, 'submissions refused for a reason other than a full cache')
+        ctx.require(c.get('replies_for_another_hash', 0) >= 20 and c.get('http_library_faults_fired', 0) >= 50, 'replies for another hash and failing HTTP library calls observed')
 
 
 # ------------------------------------------------------------------ HTTP transport (request granularity)
